@@ -41,7 +41,7 @@ set_option maxRecDepth 100000 in
 /-- Obligation on regenerated data: post-commit work starts only through tx.OnCommit, and the three
     listener adapters have the modelled shape. -/
 theorem delivery_is_expected :
-    Generated.deliveryFlags.all (·.2) = true ∧ Generated.deliveryFlags.length = 15 ∧
+    Generated.deliveryFlags.all (·.2) = true ∧ Generated.deliveryFlags.length = 16 ∧
     Generated.adapterShapes = ["entityListenerAdapter", "entityFunctionListenerAdapter", "untypedEventListenerWrapper"].map expectedAdapter := by
   decide
 
@@ -52,7 +52,7 @@ theorem delivery_is_expected :
     error; stage order in Create / Update / processDeleteConstraints.  (That GetParentContext lets the
     parent bucket record into the child bucket's holder is the table field `persistSharesHolder`.) -/
 theorem holder_plumbing_is_expected :
-    Generated.holderFlags.all (·.2) = true ∧ Generated.holderFlags.length = 14 := by
+    Generated.holderFlags.all (·.2) = true ∧ Generated.holderFlags.length = 16 := by
   decide
 
 /-- environments whose return table is the one regenerated from the code (registrations and the
@@ -95,21 +95,21 @@ theorem op_failure_kind_surfaces (env : Env) (h : FromCode env) (fault : Fault) 
 
 -- non-vacuity: a vetoing constraint on the child store and a delete through the parent store
 example : OpFails { regsP := [], regsC := [.constraint false [(.deleted, "c1")]], txListeners := 0, t := Generated.crudReturns }
-    [("c1", { f := ⟨"n", [], none, []⟩, child := some "k" })] (.delete .P "c1") :=
+    [("c1", { f := ⟨"n", [], none, [], []⟩, child := some "k" })] (.delete .P "c1") :=
   .deleteVetoChildFlow .P .C "c1" (by decide) (by decide) (by decide)
 
 -- non-vacuity: an entity with data in both child stores; a constraint of the SECOND child store vetoes the delete
 example : OpFails { regsP := [], regsC := [], regsD := [.constraint true [(.deleted, "c1")]], txListeners := 0, t := Generated.crudReturns }
-    [("c1", { f := ⟨"n", [], none, []⟩, child := some "k", child2 := some "g" })] (.delete .C "c1") :=
+    [("c1", { f := ⟨"n", [], none, [], []⟩, child := some "k", child2 := some "g" })] (.delete .C "c1") :=
   .deleteVetoChildFlow .C .D "c1" (by decide) (by decide) (by decide)
 
 -- non-vacuity: a custom constraint registered on the CHILD store vetoes the delete of an entity with
 -- child data (delete through the parent store); one on the parent store vetoes an update before the write
 example : OpFails { regsP := [], regsC := [], txListeners := 0, t := Generated.crudReturns, ixC := [[(.beforeDelete, "c1")]] }
-    [("c1", { f := ⟨"n", [], none, []⟩, child := some "k" })] (.delete .P "c1") :=
+    [("c1", { f := ⟨"n", [], none, [], []⟩, child := some "k" })] (.delete .P "c1") :=
   .deleteIxVetoChild .P .C "c1" (by decide) (by decide) (by decide)
 example : OpFails { regsP := [], regsC := [], txListeners := 0, t := Generated.crudReturns, ixP := [[], [(.beforeUpdate, "c1")]] }
-    [("c1", { f := ⟨"n", [], none, []⟩, child := some "k" })] (.update .C "c1" ⟨"m", [], none, []⟩ "k") :=
+    [("c1", { f := ⟨"n", [], none, [], []⟩, child := some "k" })] (.update .C "c1" ⟨"m", [], none, [], []⟩ "k") :=
   .updateIxVetoParent .C "c1" _ _ .beforeUpdate (by decide) (by decide)
 
 /-- **C07, no false success.**  An operation that reports success was accepted by the spec (none of
@@ -238,6 +238,11 @@ theorem rejected_operation_surfaces (env : Env) (h : FromCode env) (db : Db) (ct
             · simp
         | fail tag => simp [specSteps]
         | fail1 tag => simp [specSteps]
+        | link op id ts =>
+          simp only [List.cons_append, specSteps]
+          split
+          · simp [specSteps]
+          · exact ih _
         | addCommit tag => simp only [List.cons_append, specSteps]; exact ih _
         | addPre tag fails => simp only [List.cons_append, specSteps]; exact ih _
         | nestedBegin => simp only [List.cons_append, specSteps]; exact ih _
@@ -267,6 +272,11 @@ theorem rejected_operation_surfaces (env : Env) (h : FromCode env) (db : Db) (ct
               · intro _; rfl
           | fail tag => intro _; rfl
           | fail1 tag => intro _; rfl
+          | link op id ts =>
+            simp only [List.cons_append, specSteps]
+            split
+            · intro _; rfl
+            · exact ih _
           | addCommit tag => simp only [List.cons_append, specSteps]; exact ih _
           | addPre tag fails => simp only [List.cons_append, specSteps]; exact ih _
           | nestedBegin => simp only [List.cons_append, specSteps]; exact ih _
@@ -274,6 +284,28 @@ theorem rejected_operation_surfaces (env : Env) (h : FromCode env) (db : Db) (ct
           | useSystemCtx => simp only [List.cons_append, specSteps]; exact ih _
       exact this _ _ _ hfa
   simp [this] at ha
+
+/-- **a link operation of the caller is rejected** (AddLinks / SetLinks with a target that does not exist,
+    any link operation on an entity that does not exist) at any position of the body -> error -/
+theorem rejected_link_step_surfaces (env : Env) (h : FromCode env) (db : Db) (ctx : Ctx)
+    (pre post : List Step) (op : LinkOp) (id : String) (ts : List String)
+    (hp : Propagating (pre ++ .link op id ts :: post))
+    (hrej : (linkStep op id ts (specBody env db ctx pre).db).1.isSome = true) :
+    (dbUpdate env db ctx (pre ++ .link op id ts :: post)).res ≠ .ok := by
+  intro hok
+  have ha := (dbUpdate_agree env h.expected db ctx _ hp).res.mp hok
+  rw [(specTxWith_ok env true db ctx _).1] at ha
+  have : (specBody env db ctx (pre ++ .link op id ts :: post)).accepted = false := by
+    unfold specBody at hrej ⊢
+    rw [specSteps_append_accepted]
+    cases hl : (linkStep op id ts (specSteps env pre { accepted := true, db := db, flows := [], ctx := ctx, specified := true }).db).1 with
+    | none => rw [hl] at hrej; cases hrej
+    | some e => simp [specSteps, hl]
+  simp [this] at ha
+
+-- non-vacuity: AddLinks with a target the linked store does not have
+example : (linkStep .add "p1" ["q1", "zz"] [("p1", { f := ⟨"n", [], none, [], []⟩, child := none })]).1 = some .linkMissing := by
+  decide
 
 /-- **ghost form, any injected storage fault:** if anything at all was raised while a Db.Update
     transaction ran (body that hands errors on), Db.Update returns an error. -/
@@ -317,7 +349,7 @@ theorem history_refines_spec (env : Env) (h : FromCode env) (txs : List TxSpec)
   runCase_agree env h.expected txs hw db ctx
 
 -- non-vacuity of the transaction hypotheses
-def sampleBody : List Step := [.addCommit 1, .op (.create .C "c1" ⟨"n", ["r"], none, []⟩ "k") (.load .P 1) false, .fail 3]
+def sampleBody : List Step := [.addCommit 1, .op (.create .C "c1" ⟨"n", ["r"], none, [], []⟩ "k") (.load .P 1) false, .fail 3]
 example : TxSpec.wellBehaved { mode := .batch, reuseCtx := true, body := sampleBody } := by
   intro s hs
   simp [sampleBody] at hs
@@ -331,9 +363,9 @@ def tableWithout9b55bb4 : CrudReturns := { expectedReturns with deleteFireEvents
     concrete input (the veto is raised, the delete reports success). -/
 example :
     (runOp { regsP := [], regsC := [.constraint true [(.deleted, "c1")]], txListeners := 0, t := tableWithout9b55bb4 }
-      .none (.delete .C "c1") (beginTx [("c1", { f := ⟨"n2", [], none, []⟩, child := some "k1" })] Ctx.empty)).2 = .ok ∧
+      .none (.delete .C "c1") (beginTx [("c1", { f := ⟨"n2", [], none, [], []⟩, child := some "k1" })] Ctx.empty)).2 = .ok ∧
     (runOp { regsP := [], regsC := [.constraint true [(.deleted, "c1")]], txListeners := 0, t := tableWithout9b55bb4 }
-      .none (.delete .C "c1") (beginTx [("c1", { f := ⟨"n2", [], none, []⟩, child := some "k1" })] Ctx.empty)).1.raised
+      .none (.delete .C "c1") (beginTx [("c1", { f := ⟨"n2", [], none, [], []⟩, child := some "k1" })] Ctx.empty)).1.raised
         = [.veto .C 0] := by
   decide
 
@@ -341,7 +373,7 @@ example :
     `changeFlow, err := …processDeleteConstraints(…); if changeFlow != nil {…} else if err != nil {return err}`). -/
 def tableChildConstraintErrorUntested : CrudReturns := { expectedReturns with deleteChildConstraints := .ignore }
 
-def c1Db : Db := [("c1", { f := ⟨"n2", [], none, []⟩, child := some "k1" })]
+def c1Db : Db := [("c1", { f := ⟨"n2", [], none, [], []⟩, child := some "k1" })]
 
 /-- Under that table a delete veto raised by a custom constraint registered ON THE CHILD STORE is
     dropped (one registered on the parent store is raised again by the parent store's own pass): the
@@ -366,14 +398,14 @@ def tableHolderNotShared : CrudReturns := { expectedReturns with persistSharesHo
     the veto is raised, the update reports success and is applied.  A plain parent entity is not affected. -/
 example :
     (runOp { regsP := [], regsC := [], txListeners := 0, t := tableHolderNotShared, ixP := [[(.beforeUpdate, "c1")]] }
-      .none (.update .P "c1" ⟨"n9", [], none, []⟩ "") (beginTx c1Db Ctx.empty)).2 = .ok ∧
+      .none (.update .P "c1" ⟨"n9", [], none, [], []⟩ "") (beginTx c1Db Ctx.empty)).2 = .ok ∧
     (runOp { regsP := [], regsC := [], txListeners := 0, t := tableHolderNotShared, ixP := [[(.beforeUpdate, "c1")]] }
-      .none (.update .P "c1" ⟨"n9", [], none, []⟩ "") (beginTx c1Db Ctx.empty)).1.raised = [.ixVeto .P 0] ∧
+      .none (.update .P "c1" ⟨"n9", [], none, [], []⟩ "") (beginTx c1Db Ctx.empty)).1.raised = [.ixVeto .P 0] ∧
     (runOp { regsP := [], regsC := [], txListeners := 0, t := tableHolderNotShared, ixP := [[(.beforeUpdate, "c1")]] }
-      .none (.update .P "c1" ⟨"n9", [], none, []⟩ "") (beginTx c1Db Ctx.empty)).1.db =
-        [("c1", { f := ⟨"n9", [], none, []⟩, child := some "k1" })] ∧
+      .none (.update .P "c1" ⟨"n9", [], none, [], []⟩ "") (beginTx c1Db Ctx.empty)).1.db =
+        [("c1", { f := ⟨"n9", [], none, [], []⟩, child := some "k1" })] ∧
     (runOp { regsP := [], regsC := [], txListeners := 0, t := tableHolderNotShared, ixP := [[(.beforeUpdate, "p1")]] }
-      .none (.update .P "p1" ⟨"n9", [], none, []⟩ "") (beginTx [("p1", { f := ⟨"n1", [], none, []⟩, child := none })] Ctx.empty)).2
+      .none (.update .P "p1" ⟨"n9", [], none, [], []⟩ "") (beginTx [("p1", { f := ⟨"n1", [], none, [], []⟩, child := none })] Ctx.empty)).2
         = .err (.ixVeto .P 0) := by
   decide +kernel
 
@@ -383,14 +415,14 @@ example :
 example :
     (runTx { regsP := [.listener .untyped [⟨.created, false⟩]], regsC := [], txListeners := 1, t := Generated.crudReturns }
       [] Ctx.empty
-      { mode := .batch, reuseCtx := false, body := [.addCommit 1, .op (.create .P "p1" ⟨"n", [], none, []⟩ "") .none false, .fail1 7] }).res = .ok ∧
+      { mode := .batch, reuseCtx := false, body := [.addCommit 1, .op (.create .P "p1" ⟨"n", [], none, [], []⟩ "") .none false, .fail1 7] }).res = .ok ∧
     (runTx { regsP := [.listener .untyped [⟨.created, false⟩]], regsC := [], txListeners := 1, t := Generated.crudReturns }
       [] Ctx.empty
-      { mode := .batch, reuseCtx := false, body := [.addCommit 1, .op (.create .P "p1" ⟨"n", [], none, []⟩ "") .none false, .fail1 7] }).runs = 2 ∧
+      { mode := .batch, reuseCtx := false, body := [.addCommit 1, .op (.create .P "p1" ⟨"n", [], none, [], []⟩ "") .none false, .fail1 7] }).runs = 2 ∧
     (runTx { regsP := [.listener .untyped [⟨.created, false⟩]], regsC := [], txListeners := 1, t := Generated.crudReturns }
       [] Ctx.empty
-      { mode := .batch, reuseCtx := false, body := [.addCommit 1, .op (.create .P "p1" ⟨"n", [], none, []⟩ "") .none false, .fail1 7] }).fired
-      = [.commitActions [1, 1], .listener .P 0 0 false .created (some (.parent "p1" ⟨"n", [], none, []⟩)), .txComplete 0] := by
+      { mode := .batch, reuseCtx := false, body := [.addCommit 1, .op (.create .P "p1" ⟨"n", [], none, [], []⟩ "") .none false, .fail1 7] }).fired
+      = [.commitActions [1, 1], .listener .P 0 0 false .created (some (.parent "p1" ⟨"n", [], none, [], []⟩)), .txComplete 0] := by
   decide +kernel
 
 end StorageModel.Properties.C07
